@@ -81,6 +81,7 @@ class DocEngine:
         self.n_reopen = 0
         self.n_edits = 0
         self.n_faults = 0
+        self.last_buf = None  # the BytesIO of the last save to a buffer (may be reused as a target)
         self.other = None  # C13: a second document (merge source)
         self.c13_inserted = []
         self.c13_latest = {}
@@ -148,6 +149,8 @@ class DocEngine:
                    ("reopen", (6 * cfg["p_reopen"]) if self._reopenable() else 0)]
         if self.prop in ("C04", "C03"):
             weights += [("clone_swap", 1), ("merge_styles", 1 if self.prop == "C04" else 0), ("save_other", 2 if self.shadow else 0)]
+        if self.sut.src["kind"] == "folder" and self.prop in ("C03", "C04", "C11"):
+            weights += [("env_touch_source", 1.5)]
         if self.prop in ("C10", "C03"):
             weights += [("set_part_many", 2.5 if (self.prop == "C10" and self.twin is None) else 0.8)]
         if self.prop == "C10":
@@ -245,6 +248,10 @@ class DocEngine:
             # exports and string conversions carry the process-global context: drawn more often
             heavy = [e for e in doc_reads.ENTRY_NAMES if e.startswith(("doc.to_markdown", "doc.get_formatted_text", "str(", "lists:", "body.inner_text", "tables: get_formatted", "tables: str"))]
             op["entries"] = [rng.choice(heavy, "entry_h") if rng.chance(0.45, "heavy?") else rng.choice(doc_reads.ENTRY_NAMES, "entry") for _ in range(k)]
+        elif name == "env_touch_source":
+            files = sorted(x for x in st.base if not x.endswith("/"))
+            op["name"] = rng.choice(files, "touchname") if files else "mimetype"
+            op["dt2"] = rng.choice([0.0, 1.0, 2.0, -1.0], "dt2")
         elif name == "set_part_many":
             op["k"] = rng.choice([2, 5, 12, 16, 20, 30], "many_k")
             op["n"] = n
@@ -320,8 +327,10 @@ class DocEngine:
         tk = [("path", 5), ("path_noext", 1)]
         if s["packaging"] != "folder":
             tk.append(("bytesio", 3))
-        if has_path and s["packaging"] == self.sut.src["packaging"] and s["packaging"] == "zip":
+        if has_path and s["packaging"] == self.sut.src["packaging"] and s["packaging"] in ("zip", "folder"):
             tk.append(("inplace", 2))
+        if s["packaging"] == "zip" and self.last_buf is not None:  # (a zip may follow other data in a buffer; flat XML may not)
+            tk.append(("bytesio_reuse", 1.5))  # a buffer that already holds an earlier save, positioned at its end
         if s["packaging"] == "folder":
             tk.append(("dotfolder", 1))
         if any(a.get("path") and a["packaging"] == s["packaging"] and not a.get("dead") for a in self.artifacts):
@@ -1239,6 +1248,21 @@ class DocEngine:
         self.stats.probe("relookup_checked", len(self.c13_latest))
         return []
 
+    def _op_env_touch_source(self, op):
+        """environment: a file of the source folder gets a new modification time, its
+        content unchanged (another tool touched it / a clock jump). No property is about
+        a concurrent *writer*; a touch changes nothing the document may depend on."""
+        src = self.sut.src
+        if src["kind"] != "folder" or not src.get("path"):
+            return []
+        f = os.path.join(src["path"], op["name"])
+        if os.path.isfile(f):
+            self.env.set_mtime(f, self.env.now + op.get("dt2", 0.0))
+            self.stats.probe("env:source-file-touched")
+            self.flags.add("source_file_touched")
+        self._outcome = "env_touch_source"
+        return []
+
     def _op_set_part_many(self, op):
         """many new parts at once (size knob: more parts in memory than members in the source)"""
         doc, st = self.sut.doc, self.sut.store
@@ -1411,6 +1435,11 @@ class DocEngine:
             return self.sut.newpath("out") + ".folder", "path"
         if tk == "bytesio":
             return simenv.FaultyBytesIO(), "bytesio"
+        if tk == "bytesio_reuse":
+            if self.last_buf is None:
+                return simenv.FaultyBytesIO(), "bytesio"
+            self.stats.probe("env:bytesio-target-already-holds-data")
+            return self.last_buf, "bytesio"
         if tk == "inplace":
             return None, "inplace"
         if tk == "existing":
@@ -1514,6 +1543,7 @@ class DocEngine:
         art = {"packaging": pk, "expected": expected, "mimetype": st.mimetype, "feats": feats, "c13_latest": dict(self.c13_latest)}
         if tkind == "bytesio":
             art["data"] = given.getvalue()
+            self.last_buf = given
         else:
             g = given if given is not None else self.sut.src["path"]
             art["given"] = g
